@@ -284,6 +284,27 @@ theorem core_step (s : State) (m : Move) (h : Inv s) (c : Core s) (ha : assumed1
     split
     · exact c
     · split <;> exact c.of_eq rfl rfl rfl rfl rfl rfl
+  | markTerminating ns name fault =>
+    dsimp only [step]
+    cases hp : Tbl.get s.pods (ns, name) with
+    | none => exact c
+    | some p =>
+      dsimp only
+      obtain ⟨_, pu0, _, pwf⟩ := h.podsWF (ns, name) p hp
+      split
+      · exact c
+      · split
+        · exact c.of_eq rfl rfl rfl rfl rfl rfl
+        · split
+          · exact c.of_eq rfl rfl rfl rfl rfl rfl
+          · split
+            · have c0 : Core (withFaults { s with pods := s.pods.set (ns, name) { p with terminating := true } } fault 0) :=
+                c.of_eq rfl rfl rfl rfl rfl rfl
+              have hk : (keyOf { p with terminating := true }).pod ≠ "" := by
+                show (keyOf p).pod ≠ ""
+                rw [(keyOf_fields p pwf).2]; exact pwf.2.1
+              exact (syncIPs_core { p with terminating := true } hk pu0 p.ips _ c0).1
+            · exact c.of_eq rfl rfl rfl rfl rfl rfl
   | runPod ns name =>
     dsimp only [step]
     split
@@ -388,6 +409,19 @@ theorem Back.of_pods_eq {s s' : State} (h : s'.pods = s.pods) : Back s s' := by
   rw [h] at hq
   exact Or.inl ⟨q, hq, rfl, rfl⟩
 
+/-- re-writing a pod without touching phase, node and binding annotation -/
+theorem Back.of_set_same {s s' : State} {id : String × String} {p p' : Pod} (hp : Tbl.get s.pods id = some p)
+    (hpid : p.id = id) (he : s'.pods = Tbl.set s.pods id p') (hf : p'.finished = p.finished) (hn : p'.node = p.node)
+    (hh : p'.handed = p.handed) : Back s s' := by
+  intro q hq
+  rw [he] at hq
+  by_cases hid : q.id = id
+  · have hqe := liveBound_set_self hq hid
+    refine Or.inl ⟨p, ⟨by rw [hpid]; exact hp, ?_, ?_⟩, by rw [hqe, hn], by rw [hqe, hh]⟩
+    · have := hq.2.1; rw [hqe, hf] at this; exact this
+    · have := hq.2.2; rw [hqe, hh] at this; exact this
+  · exact Or.inl ⟨q, liveBound_of_set_ne hq hid, rfl, rfl⟩
+
 theorem back_step (s : State) (m : Move) (h : Inv s) (c : Core s) (ha : assumed10 s m = true) :
     Back s (step Facts.good s m).1 := by
   cases m with
@@ -419,6 +453,27 @@ theorem back_step (s : State) (m : Move) (h : Inv s) (c : Core s) (ha : assumed1
           rw [this] at hfin
           simp [Pod.finished] at hfin
         · exact Or.inl ⟨q, liveBound_of_set_ne hq hid, rfl, rfl⟩
+  | markTerminating ns name fault =>
+    dsimp only [step]
+    cases hp : Tbl.get s.pods (ns, name) with
+    | none => exact Back.of_pods_eq rfl
+    | some p =>
+      dsimp only
+      obtain ⟨pid, pu0, _, pwf⟩ := h.podsWF (ns, name) p hp
+      split
+      · exact Back.of_pods_eq rfl
+      · split
+        · exact Back.of_set_same hp pid rfl rfl rfl rfl
+        · split
+          · exact Back.of_set_same hp pid rfl rfl rfl rfl
+          · split
+            · have c0 : Core (withFaults { s with pods := s.pods.set (ns, name) { p with terminating := true } } fault 0) :=
+                c.of_eq rfl rfl rfl rfl rfl rfl
+              have hk : (keyOf { p with terminating := true }).pod ≠ "" := by
+                show (keyOf p).pod ≠ ""
+                rw [(keyOf_fields p pwf).2]; exact pwf.2.1
+              exact Back.of_set_same hp pid (syncIPs_core { p with terminating := true } hk pu0 p.ips _ c0).2.1 rfl rfl rfl
+            · exact Back.of_set_same hp pid rfl rfl rfl rfl
   | runPod ns name =>
     dsimp only [step]
     split
